@@ -84,7 +84,7 @@ impl Prop for C19 {
         450
     }
     fn cases(&self, t: Tier) -> usize {
-        t.pick(100_000, 3_000_000)
+        t.pick(400_000, 3_000_000)
     }
     fn generate(&self, t: &mut Tape) -> Case {
         let spelling = super::c02::take_spelling(t, 30);
